@@ -348,6 +348,11 @@ def mp4_mutations(da, rng: random.Random, tier_: str) -> list[dict[str, Any]]:
     # a box of size 0 "extends to the end of the file" (ISO/IEC 14496-12 4.2): legal as the last box, also when nothing follows its header
     muts.append(('append:free(size=0)', src + struct.pack('>I4s', 0, b'free')))
     muts.append(('append:free(size=0)+payload', src + struct.pack('>I4s', 0, b'free') + b'\0' * 5))
+    # legal media of a shape the fixtures do not have: an encrypted track whose first moof carries a version 1 pssh box naming a
+    # second key id (key rotation): upload, index, info, segments, manifest and delete must work as for any other file
+    from harness.synth import add_moof_pssh
+    muts.append(('legal:pssh-v1-in-moof', add_moof_pssh((da.blob_folder / 'bbb' / 'bbb_a1_enc.mp4').read_bytes(),
+                                                        bytes.fromhex('c001de8e567b5fcfbc22c565ed5bda24'))))
     # ---- nested boxes: size-field edits of every box of the head of several files, truncation at every offset of the boxes that
     # carry NUL-terminated strings.  These run through the parser directly (cheap); a sample also goes through the service.
     deep: list[tuple[str, bytes]] = []
